@@ -1,6 +1,7 @@
 /-
   Model of regexpfs.go over the MemMapFs model. The regular expression is abstracted as a
-  predicate on the name *as passed* (`re.MatchString(name)`); listings filter on base names.
+  predicate on the name (as repaired: `re.MatchString(filepath.Clean(name))`, i.e. the engine
+  instantiates `pred` with `re ∘ Clean`); listings filter on base names.
 -/
 import AferoVerif.Model.Union
 namespace AferoVerif
@@ -93,6 +94,8 @@ def predTxt (s : Str) : Bool := endsWith s ".txt".toList
 def predA (s : Str) : Bool := (lastElem s).head? = some 'a'
 /-- `x[^/]*$` -/
 def predX (s : Str) : Bool := (lastElem s).contains 'x'
+/-- `(^|/)[^./]*$`: the final element (possibly empty) has no dot -/
+def predNoDot (s : Str) : Bool := !(lastElem s).contains '.'
 /-- `(^|/)[a-c]+$` -/
 def predAC (s : Str) : Bool := lastElem s ≠ [] ∧ (lastElem s).all fun c => c = 'a' ∨ c = 'b' ∨ c = 'c'
 
